@@ -258,7 +258,21 @@ impl<'a, 'b> G<'a, 'b> {
                 let ar = self.fns[me].1;
                 let args: Vec<Expr> = (0..ar).map(|_| self.expr(in_fn)).collect();
                 let out = if self.t.chance(1, 3) { Some("rr".to_string()) } else { None };
-                return Stmt::If(vec![(Cond::Tick { neg: false, key, n }, vec![Stmt::Call { out, f: me, args }])], None);
+                // the recursive call sits in a taken branch of a block that may have further branches
+                let call = Stmt::Call { out, f: me, args };
+                return match self.t.below(3) {
+                    0 => Stmt::If(vec![(Cond::Tick { neg: false, key, n }, vec![call])], None),
+                    1 => {
+                        let e = self.emit(in_fn);
+                        let e2 = self.emit(in_fn);
+                        Stmt::If(vec![(Cond::Tick { neg: false, key, n }, vec![call, e2])], Some(vec![e]))
+                    }
+                    _ => {
+                        let e = self.emit(in_fn);
+                        let e2 = self.emit(in_fn);
+                        Stmt::If(vec![(Cond::Tick { neg: false, key, n }, vec![call]), (Cond::Value(Expr::Lit("true".into())), vec![e])], Some(vec![e2]))
+                    }
+                };
             }
         }
         match self.t.weighted(&w) {
